@@ -161,6 +161,8 @@ func goTracking(repo, rel string) ([]string, error) {
 					// changes with harmless restructuring), untracked ones are, with what they do
 					if tracked == "tracked" {
 						out = append(out, "tracked")
+					} else if fd.Name.Name == "Stop" {
+						out = append(out, "untracked: helper goroutine of Stop") // delivers Stop's result; what it calls first is immaterial
 					} else {
 						out = append(out, tracked+": "+actionOf(g.Call, local, 0))
 					}
